@@ -9,8 +9,8 @@ namespace DrvC17
 
 /-- the model instance: exact rationals, library tolerance, writer precisions and reader facts from the source -/
 def io : DblIO Rat := ratIO AITB.Gen.equalToleranceSmall
-def prec : Prec := ⟨AITB.Gen.IOPrec.scalar, AITB.Gen.IOPrec.dense, AITB.Gen.IOPrec.sparse, AITB.Gen.IOPrec.pomdpPolicy⟩
-def prec17 : Prec := ⟨17, 17, 17, 17⟩
+def prec : Prec := ⟨AITB.Gen.IOPrec.scalar, AITB.Gen.IOPrec.dense, AITB.Gen.IOPrec.sparse, AITB.Gen.IOPrec.pomdpPolicy, AITB.Gen.IOPrec.vector⟩
+def prec17 : Prec := ⟨17, 17, 17, 17, 17⟩
 def viaDouble : Bool := AITB.Gen.IOPrec.sparseTableViaDouble
 
 inductive Obj where
@@ -24,6 +24,7 @@ inductive Obj where
   | pss (x : SModel Rat × List (SpMat Rat))
   | pds (x : SModel Rat × List (Mat Rat))
   | psd (x : DModel Rat × List (SpMat Rat))
+  | vec (v : List Rat)
   deriving BEq
 
 structure Shape where
@@ -42,6 +43,7 @@ def component : String → String
   | "pss" => "POMDP::SparseModel<MDP::SparseModel>"
   | "pds" => "POMDP::Model<MDP::SparseModel>"
   | "psd" => "POMDP::SparseModel<MDP::Model>"
+  | "vec" => "read(Vector)"
   | k => k
 
 def Rd.map {α β} (f : α → β) (m : Rd α) : Rd β := Rd.bind m (fun a => Rd.pure (f a))
@@ -58,6 +60,7 @@ def readObj (vd : Bool) (kind : String) (sh : Shape) : Option (Rd Obj) :=
   | "pss" => some (Rd.map .pss (rdPS io (rdSModel io sh.S sh.A) sh.S sh.A sh.O))
   | "pds" => some (Rd.map .pds (rdPD io (rdSModel io sh.S sh.A) sh.S sh.A sh.O))
   | "psd" => some (Rd.map .psd (rdPS io (rdDModel io sh.S sh.A) sh.S sh.A sh.O))
+  | "vec" => some (Rd.map .vec (rdVec io sh.S))
   | _ => none
 
 def writeObj (pr : Prec) : Obj → Stream
@@ -71,6 +74,7 @@ def writeObj (pr : Prec) : Obj → Stream
   | .pss x => wrPS io pr (wrSModel io pr) x
   | .pds x => wrPD io pr (wrSModel io pr) x
   | .psd x => wrPS io pr (wrDModel io pr) x
+  | .vec v => wrVec io pr.vector v
 
 def validObj (sh : Shape) : Obj → Bool
   | .dmodel m => dmodelValidB io sh.S sh.A m
@@ -83,6 +87,7 @@ def validObj (sh : Shape) : Obj → Bool
   | .pss x => psValidB io (smodelValidB io sh.S sh.A) sh.S sh.A sh.O x
   | .pds x => pdValidB io (smodelValidB io sh.S sh.A) sh.S sh.A sh.O x
   | .psd x => psValidB io (dmodelValidB io sh.S sh.A) sh.S sh.A sh.O x
+  | .vec v => v.length == sh.S
 
 /-! dump parsers (harness `dumpObj`) -/
 def pMat (r c : Nat) : P (Mat Rat) := P.rep (P.rep P.q c) r
@@ -117,6 +122,7 @@ def pObj (kind : String) (sh : Shape) : P Obj :=
   | "pss" => do let m ← pSModel sh; let o ← P.rep (pSp P.q) sh.A; pure (.pss (m, o))
   | "pds" => do let m ← pSModel sh; let o ← pMat3 sh.A sh.S sh.O; pure (.pds (m, o))
   | "psd" => do let m ← pDModel sh; let o ← P.rep (pSp P.q) sh.A; pure (.psd (m, o))
+  | "vec" => do let v ← P.rep P.q sh.S; pure (.vec v)
   | _ => P.fail
 
 def hexVal (c : Char) : Nat :=
@@ -180,6 +186,8 @@ def rt : P String := do
   let hex ← P.tok; P.bar
   let x ← pObj kind sh; P.bar
   let sig ← P.nat; let bitsame ← P.bool; let dd ← P.int; let _untouched ← P.bool
+  let nd ← P.nat
+  let decs ← P.rep (do let h ← P.nat; let s ← P.nat; let a ← P.nat; let id ← P.nat; pure (h, s, a, id)) nd
   let comp := component kind
   match readObj viaDouble kind sh with
   | none => P.fail
@@ -189,6 +197,12 @@ def rt : P String := do
     -- writer: model text (at the precisions found in the source) vs the library's text, token by token
     let v := v.diffIf (writeObj prec x != text) s!"{comp} writer model and impl texts differ"
     let v := v.diffIf (!(validObj sh x)) s!"{comp} generator object not valid in the model"
+    -- decisions of the original at the simplex corners: model `decision` vs `Policy::sampleAction(b, h)`
+    let v := match x with
+      | .ppol vf => v.diffIf (decs.any (fun (h, s, a, id) =>
+          decision vf h ((List.range sh.S).map (fun i => if i == s then (1 : Rat) else 0)) != some (a, id)))
+          s!"{comp} decision model and impl choose different entries at a corner belief"
+      | _ => v
     if sig != 0 then
       P.eof
       let v := v.failIf true s!"{comp} roundtrip_load_failed signal={sig}"
